@@ -250,6 +250,9 @@ static void handle_query(int nt, char **t) {
   else if (!strcmp(op, "CCV")) { NEED(2); SETARG(1); aprintf("%d", idof(hwloc_get_cache_covering_cpuset(topo, S))); }
   else if (!strcmp(op, "SCC")) { NEED(2); hwloc_obj_t o = objarg(t[1], &bad); CHECK(); aprintf("%d", idof(hwloc_get_shared_cache_covering_obj(topo, o))); }
   else if (!strcmp(op, "TYD")) { NEED(2); aprintf("%d", hwloc_get_type_depth(topo, (hwloc_obj_type_t) atoi(t[1]))); }
+  else if (!strcmp(op, "TDA")) { NEED(3);   /* TDA <type> <group depth attribute>: hwloc_get_type_depth_with_attr */
+    union hwloc_obj_attr_u a; memset(&a, 0, sizeof a); a.group.depth = (unsigned) strtoul(t[2], NULL, 10);
+    aprintf("%d", hwloc_get_type_depth_with_attr(topo, (hwloc_obj_type_t) atoi(t[1]), &a, sizeof a)); }
   else if (!strcmp(op, "DT")) { NEED(2); aprintf("%d", (int) hwloc_get_depth_type(topo, atoi(t[1]))); }
   else if (!strcmp(op, "NOT")) { NEED(2); aprintf("%d", hwloc_get_nbobjs_by_type(topo, (hwloc_obj_type_t) atoi(t[1]))); }
   else if (!strcmp(op, "OBT")) { NEED(3); aprintf("%d", idof(hwloc_get_obj_by_type(topo, (hwloc_obj_type_t) atoi(t[1]), (unsigned) strtoul(t[2], NULL, 10)))); }
@@ -467,6 +470,15 @@ static void gen_queries(unsigned budget) {
 #define LEFT() (nops_done - sec_start < sec_budget)
   /* type / depth lookups: cheap, always */
   for (int ty = -1; ty <= HWLOC_OBJ_TYPE_MAX; ty++) { q("TYD %d", ty); if (rng_chance(30)) q("NOT %d", ty); if (rng_chance(30)) q("OBT %d %u", ty, rng_below(3)); if (rng_chance(20)) q("NBY %d %d", ty, rng_chance(50) ? -1 : idof(rand_obj())); }
+  /* the lookup by type AND attribute: every Group depth attribute present in the topology (after a restrict they need not be 0..n-1 any
+   * more: restrict does not renumber them), a few absent ones, the "no attribute" value; the other types ignore the attribute (C09-r8) */
+  { unsigned seen[8], ns = 0;
+    for (int dp = 0; dp < td; dp++) { hwloc_obj_t o = hwloc_get_obj_by_depth(topo, dp, 0); if (o && o->type == HWLOC_OBJ_GROUP && ns < 8) seen[ns++] = o->attr->group.depth; }
+    for (unsigned i = 0; i < ns; i++) q("TDA %d %u", (int) HWLOC_OBJ_GROUP, seen[i]);
+    for (unsigned g = 0; g < 5; g++) if (rng_chance(ns ? 60 : 10)) q("TDA %d %u", (int) HWLOC_OBJ_GROUP, g);
+    q("TDA %d 4294967295", (int) HWLOC_OBJ_GROUP);
+    if (rng_chance(30)) q("TDA %d %u", (int) rng_below(HWLOC_OBJ_TYPE_MAX), rng_below(3));
+    if (ns >= 2) stat_hit("tda-multi-group-levels"); }
   for (int dp = -10; dp <= td + 1; dp++) { q("DT %d", dp); if (rng_chance(40)) q("OBD %d %u", dp, rng_below(4)); if (rng_chance(40)) q("NBD %d %d", dp, rng_chance(40) ? -1 : idof(rand_obj())); }
   for (unsigned lv = 0; lv <= 6; lv++) for (int ct = -1; ct <= 3; ct++) if (rng_chance(35)) q("CTD %u %d", lv, ct);
   for (int k = 0; k < 4; k++) { q("PUO %u", rng_below(npu + 3)); q("NNO %u", rng_below(6)); }
@@ -639,6 +651,22 @@ int main(int argc, char **argv) {
       stat_hit("topo-xml");
     } else {
       gen_synthetic(syn, sizeof syn, rng_chance(70) ? 16 : 64);
+      if (rng_chance(7)) {
+        /* several Group levels, then a restrict to the first child of the root: the top Group level is merged away and the remaining
+         * Group levels keep their depth attributes 1, 2, ... */
+        static const char *const gsyn[] = {"group:2 group:2 group:2 core:2 pu:2", "group:2 group:3 group:2 pu:2", "group:2 group:2 group:2 group:2 pu:1", "group:3 group:2 pack:1 group:2 pu:2"};
+        snprintf(syn, sizeof syn, "%s", gsyn[rng_below(4)]);
+        hwloc_topology_t t0;
+        if (hwloc_topology_init(&t0) == 0) {
+          if (hwloc_topology_set_synthetic(t0, syn) == 0 && hwloc_topology_load(t0) == 0) {
+            hwloc_obj_t c = hwloc_get_obj_by_depth(t0, 1, rng_below(hwloc_get_nbobjs_by_depth(t0, 1)));
+            sput_set(rset, sizeof rset, c->cpuset);
+          }
+          hwloc_topology_destroy(t0);
+        }
+        rflags = 0;
+        stat_hit("topo-multi-group-levels-restricted");
+      } else
       if (rng_chance(50)) {
         static const unsigned long fl[] = {0, 0, 1, 8, 8 | 16, 1 | 2, 4, 0};
         rflags = fl[rng_below(8)];
